@@ -299,6 +299,17 @@ def rule_rt2(prog, G, prop=PROP, rid='R-RT-2'):
                     'callback `%s` of the %s parser builds %s from %s, not '
                     'from its children in order' % (name, lang,
                                                     cb[1].short(), cb[2])))
+            elif cb[0] == 'other' and len(cb) > 3 and \
+                    cb[3] == 'inspects-children':
+                r.fail(Finding(
+                    prop, rid, cb[2].where(), cb[2].short(),
+                    'inspects:%s:%s' % (lang, name),
+                    'callback `%s` of the %s parser decides what to build '
+                    'by looking at its operands (%s): the tree of a nested '
+                    'text is then not the composition of the trees of its '
+                    'parts (e.g. a negation of a negation is simplified '
+                    'away), so Parser()(str(f)) is not f for every f' % (
+                        name, lang, '; '.join(cb[4]))))
             elif cb[0] == 'other':
                 raise Inconclusive(rid, 'callback %s of %s: %s' % (
                     name, lang, cb[1]), cb[2].where())
